@@ -33,6 +33,7 @@ def consumers(fn, bi):
     if d['p']:
         return [('stored', 'written into a field of ' + fn.local_ty(d['l'])[:60], bi)]
     carriers = {d['l']}
+    tuple_fields = set()   # (tuple local, '.k') positions holding the value
     cf = set()       # ControlFlow locals from Try::branch
     residual = set()
     changed = True
@@ -66,6 +67,10 @@ def consumers(fn, bi):
                 for o in srcs:
                     l = o['l']
                     proj = [p for p in o['p'] if p != '*']
+                    if not proj and not dst['p'] and k in ('use', 'cast'):
+                        for (tl, fk) in list(tuple_fields):
+                            if tl == l and (dst['l'], fk) not in tuple_fields:
+                                tuple_fields.add((dst['l'], fk)); changed = True
                     if l in cf:
                         if any(p.startswith('as Break') for p in proj):
                             if not dst['p'] and dst['l'] not in residual:
@@ -76,6 +81,13 @@ def consumers(fn, bi):
                             residual.add(dst['l']); changed = True
                         continue
                     if l not in carriers:
+                        if proj and (l, proj[0]) in tuple_fields:
+                            # reading the value back out of the tuple it was moved into
+                            if not dst['p'] and len(proj) == 1 and k in ('use', 'cast', 'ref', 'rawptr'):
+                                if dst['l'] == 0:
+                                    out.append(('propagate', 'returned', i))
+                                elif dst['l'] not in carriers:
+                                    carriers.add(dst['l']); changed = True
                         continue
                     used = True
                     if proj and not all(p.startswith('as Ready') or p == '.0' or p.startswith('as Some') for p in proj):
@@ -88,6 +100,12 @@ def consumers(fn, bi):
                                 continue  # captured by reference into a closure: uses are in the closure
                             if not dst['p'] and dst['l'] not in carriers:
                                 carriers.add(dst['l']); changed = True
+                            continue
+                        if rv.get('tuple') and not dst['p']:
+                            idx = [n for n, oo in enumerate(rv['ops']) if 'l' in oo and oo['l'] == l]
+                            for n in idx:
+                                if (dst['l'], '.%d' % n) not in tuple_fields:
+                                    tuple_fields.add((dst['l'], '.%d' % n)); changed = True
                             continue
                         key = ('stored', i, si)
                         if key not in seen_calls:
